@@ -232,6 +232,7 @@ def step (kind : Nat → W.Full.Cmd) (caps : W.Full.Caps) (s : St) : Th → Opti
                              apps := notifyN 0 s.k.qs (lens y.core) s.k.apps },
              core := y.core, ext := y.ext, owed := y.owed }
     else if K.isTickPc s.k.e then none
+    else if s.k.e = .loop ∧ (s.core.outb ≠ [] ∨ s.ext ≠ []) then none   -- `Run` does not return while a connection has an event pending
     else (K.step s.k .eng).map fun k' => { s with k := k' }
   | .env ev => if envOk ev = true ∧ s.k.e = .loop then some (put s.k (W.Full.step caps (sysOf s) ev)) else none
 
@@ -251,6 +252,9 @@ inductive Reach (kind : Nat → W.Full.Cmd) (caps : W.Full.Caps) : St → Prop
 
 def Sync (s : St) : Prop := s.k.qs.map (fun q => q.cmds.length) = lens s.core
 instance (s : St) : Decidable (Sync s) := by unfold Sync; exact inferInstance
+
+/-- no actor can move: no application thread, not `runAsync`, not the engine goroutine, no connection -/
+def stuck (kind : Nat → W.Full.Cmd) (caps : W.Full.Caps) (s : St) : Prop := ∀ t, step kind caps s t = none
 
 end F
 
